@@ -68,7 +68,7 @@ let ufirst = src_unlink_first
 
 let fname p =
   match p with
-  | FLayout -> "L" | FIndex -> "I" | FIndexTmp _ -> "IT"
+  | FLayout -> "L" | FIndex -> "I" | FIndexTmp _ -> "IT" | FLayoutTmp _ -> "LT"
   | FBlob d -> "B" ^ string_of_int (int_of_n d)
   | FIngest (d, _) -> "T" ^ string_of_int (int_of_n d)
 let dname d = match d with DBlobs -> "blobs" | DAlg -> "blobs/sha256" | DIngest -> "ingest"
@@ -105,7 +105,8 @@ let show_content d (l : atom list) =
 let show_file p (f : file) =
   let mode = if f.fro then "ro" else "rw" in
   match p with
-  | FLayout -> (match f.fcontent with [ALayout] -> "F:L=ok" | _ -> "F:L=bad")
+  | FLayout | FLayoutTmp _ ->
+    "F:" ^ fname p ^ "=" ^ (match f.fcontent with [ALayout] -> "ok" | [] -> "empty" | _ -> "bad")
   | FIndex | FIndexTmp _ ->
     "F:" ^ fname p ^ "=" ^ (match f.fcontent with [] -> "empty" | [AIndex l] -> show_index l | _ -> "bad")
   | FBlob d | FIngest (d, _) -> "F:" ^ fname p ^ "=" ^ show_content (int_of_n d) f.fcontent ^ ":" ^ mode
@@ -114,6 +115,7 @@ let show_fs blobs ctr (fs : fS) =
   let cs = range 0 (ctr + 1) in
   let paths =
     [FLayout; FIndex] @ List.map (fun c -> FIndexTmp (nat_of_int c)) cs @
+    List.map (fun c -> FLayoutTmp (nat_of_int c)) cs @
     List.concat (List.map (fun b -> FBlob (n_of_int b.bid) :: List.map (fun c -> FIngest (n_of_int b.bid, nat_of_int c)) cs) blobs) in
   let ftoks = List.concat (List.map (fun p -> match fs.files p with Some f -> [show_file p f] | None -> []) paths) in
   let dtoks = List.concat (List.map (fun d -> if fs.dirs d then ["D:" ^ dname d] else []) [DBlobs; DAlg; DIngest]) in
@@ -147,9 +149,24 @@ let rec locate h s ops j =
     let n = nat_len (op_steps h shuffle inplace ufirst s o) in
     if j <= n then Some (s, o) else locate h (run_op h shuffle inplace ufirst s o) r (j - n)
 
+(* initialisation: final=init, no history: the first oci.New on an empty directory *)
+let is_init sc =
+  let n = String.length sc in n >= 10 && String.sub sc (n - 10) 10 = "final=init"
+let init_steps () = new_steps shuffle inplace src_layout_inplace empty_fs (nat_of_int 0)
+let rec take n l = if n <= 0 then [] else match l with [] -> [] | x :: r -> x :: take (n - 1) r
+
 let () =
   iter_lines (fun l ->
     match split_ws l with
+    | id :: "S" :: sc :: _ when is_init sc ->
+      Printf.printf "%s\n" (String.trim (Printf.sprintf "%s STEPS %s" id
+        (String.concat " " (List.map show_step (init_steps ())))))
+    | id :: "K" :: j :: sc :: _ when is_init sc ->
+      let fsk = apply (take (int_of_string j) (init_steps ())) empty_fs in
+      let fs2 = apply (new_steps shuffle inplace src_layout_inplace fsk (nat_of_int 1)) fsk in
+      let ok = new_okb fsk && layout_okb fs2 && (match read_index fs2 with Some [] -> true | _ -> false) in
+      Printf.printf "%s STATE %s%s\n" id (show_fs [] 1 fsk) (if ok then "" else " MODEL-NOT-RECOVERABLE")
+    | id :: "R" :: sc :: _ when is_init sc -> Printf.printf "%s RES ok\n" id
     | id :: "S" :: sc :: _ ->
       let (blobs, hist, fin) = parse_script sc in
       let h = hfun blobs in
